@@ -140,6 +140,7 @@ def run_shard(args):
         _prepare_imports()
         mod = load_module(pid)
         ctx = Ctx(pid, load_known_findings(), getattr(mod, "KNOWN_PREDICATES", {}), tier)
+        ctx.shard, ctx.nshards = shard, nshards
         props = [p for p in mod.PROPS if not prop_filter or p.name in prop_filter]
         byname = {p.name: p for p in mod.PROPS}
         # corpus replay first (shard 0 only)
